@@ -266,6 +266,12 @@ def locate(src, sel):
 
 
 # ---------------------------------------------------------------- splicing
+def apply_rewrite(text, frm, to):
+    """literal rewrite; whitespace in `frm` matches any run of whitespace (incl. none) in the source"""
+    pat = r"\s*".join(re.escape(c) for c in frm.split())
+    return re.subn(pat, lambda m: to, text)
+
+
 LOOP_KW = ("for", "while", "loop")
 
 
@@ -275,10 +281,9 @@ def splice_fn(text, spec=None, ret=None, loops=None, before=None, after=None, re
     log = log if log is not None else []
     # 1) textual rewrites (declared rules only)
     for rule, frm, to in (rewrites or []):
-        cnt = text.count(frm)
+        text, cnt = apply_rewrite(text, frm, to)
         if cnt == 0:
             raise Undecided(f"rewrite {rule} `{frm}` no longer applies in {sel}")
-        text = text.replace(frm, to)
         log.append({"rule": rule, "item": sel, "from": frm, "to": to, "count": cnt})
     # 2) ghost lines (line based, done before token-level edits; we re-tokenize afterwards)
     lines = text.split("\n")
@@ -416,24 +421,28 @@ def compose(template_text, repo_root, read_file):
             src = read_file(args["file"])
             a, b = locate(src, args["sel"])
             item_text = src[a:b]
+            orig_item_text = item_text
+            n_vis = len(re.findall(r"\bpub\((?:super|crate)\)", item_text))
+            if n_vis:
+                item_text = re.sub(r"\bpub\((?:super|crate)\)", "pub", item_text)
+                rewrites_log.append({"rule": "R4", "item": args["sel"], "from": "pub(super|crate)", "to": "pub", "count": n_vis})
             src_line = src.count("\n", 0, a) + 1
             kind = args["sel"].split()[0]
             is_fn = "fn " in args["sel"] and not args["sel"].startswith(("struct", "enum", "const", "static", "type"))
             if is_fn:
                 new_text = splice_fn(item_text, spec=spec, ret=args.get("ret"), loops=loops, before=before, after=after,
-                                     rewrites=rew, strip_pub=(args.get("strip") == "pub"), log=rewrites_log, sel=args["sel"])
+                                     rewrites=rew, strip_pub=(args.get("strip", "pub") == "pub"), log=rewrites_log, sel=args["sel"])
             else:
                 new_text = item_text
                 for rule, frm, to in rew:
-                    cnt = new_text.count(frm)
+                    new_text, cnt = apply_rewrite(new_text, frm, to)
                     if cnt == 0:
                         raise Undecided(f"rewrite {rule} `{frm}` no longer applies in {args['sel']}")
-                    new_text = new_text.replace(frm, to)
                     rewrites_log.append({"rule": rule, "item": args["sel"], "from": frm, "to": to, "count": cnt})
             lo = len(out_lines) + 1
             out_lines.extend(new_text.split("\n"))
             hi = len(out_lines)
-            items.append({"sel": args["sel"], "file": args["file"], "src_line": src_line, "hash": sha(item_text),
+            items.append({"sel": args["sel"], "file": args["file"], "src_line": src_line, "hash": sha(orig_item_text),
                           "line_lo": lo, "line_hi": hi, "is_fn": is_fn, "spec_clauses": sum(1 for s in spec if s.strip())})
             i += 1
             continue
